@@ -1043,6 +1043,14 @@ def d_keydomain(site):
     return None
 
 
+def d_varint(site):
+    """Overflow / shift-range assertions inside VarSizeInt::try_from(&[u8]): VARINT-GUARD interprets the function over
+    every input and shows that none of them can fail (linked)."""
+    if site.kind == "assert" and re.search(VARINT_FN, site.body.path):
+        return "D-linked[VARINT-GUARD]: arithmetic of the variable byte integer decoder, shown unfailing for every input by abstract interpretation"
+    return None
+
+
 SESSION_ = "client::context::Session"
 
 
@@ -1123,7 +1131,7 @@ def discharge(ctx, site, ledger):
     r = d_derive(site)
     if r:
         return r
-    for f in (d_const, d_guard, d_memlen, d_lenfit, d_len, d_cmp, d_quota, d_posindex, d_keydomain, d_stream):
+    for f in (d_const, d_guard, d_memlen, d_lenfit, d_len, d_cmp, d_quota, d_posindex, d_keydomain, d_stream, d_varint):
         r = f(site)
         if r:
             return r
@@ -1324,126 +1332,82 @@ def _variant_set(body, op, bb, adt, ctx):
     return cur
 
 
-def _scale_locals(b):
-    """Locals that are multiplied by the constant 128 on themselves (`mult *= 128`)."""
-    out = set()
-    for l in range(len(b.locals)):
-        for d in b.defs.get(l, []):
-            if d[0] != "stmt":
-                continue
-            rv = d[3]["rv"]
-            src = rv
-            if rv["k"] == "use" and rv["op"].get("k") in ("move", "copy"):
-                o = b.origin({"l": rv["op"]["pl"]["l"], "p": []}, through_calls=False)
-                if o[0] == "rv":
-                    src = o[2]["rv"]
-            if src["k"] == "bin" and src["op"] == "Mul" and b.fold(src["b"]) == 128 and src["a"].get("k") in ("move", "copy") and b.base_local(src["a"]) == l:
-                out.add(l)
-    return out
+VARINT_FN = r"core::base_types::VarSizeInt as std::convert::TryFrom<&\[u8\]>>::try_from$"
 
 
-def _mentions(b, o, locals_, depth=0):
-    """The operand is computed (through unnamed temporaries) from one of the given locals."""
-    if depth > 6 or o.get("k") not in ("move", "copy"):
-        return False
-    l = o["pl"]["l"]
-    if l in locals_:
-        return True
-    for d in b.whole_defs(l):
-        if d[0] == "stmt":
-            rv = d[3]["rv"]
-            for key in ("op", "a", "b"):
-                if isinstance(rv.get(key), dict) and _mentions(b, rv[key], locals_, depth + 1):
-                    return True
-    return False
+def varint_exploration(ctx):
+    """Abstract interpretation of VarSizeInt::try_from(&[u8]) over every input (rules/absint.py): cached per context."""
+    ex = ctx.__dict__.get("_varint_ex")
+    if ex is None:
+        import absint
+        b = ctx.body(VARINT_FN)
+        ex = absint.Explorer(b, report_wrap=not ctx.facts.config.get("overflow_checks", True)).run()
+        ctx.__dict__["_varint_ex"] = ex
+    return ex
 
 
-@rule("VARINT-GUARD", floor=3)
+@rule("VARINT-GUARD", floor=1)
 def varint_guard(ctx):
-    """In VarSizeInt::try_from(&[u8]) every overflow-checked multiplication / addition that involves the
-    running multiplier is dominated by the test that the multiplier has not exceeded VarSizeInt::MAX
-    (the test comes before the arithmetic of the same iteration)."""
-    b = ctx.body(r"core::base_types::VarSizeInt as std::convert::TryFrom<&\[u8\]>>::try_from$")
-    mx = None
-    for c in ctx.facts.consts:
-        if c["name"] == "MAX" and (c["self_ty"] or "").endswith("VarSizeInt"):
-            mx = c["val"]
+    """No overflow / shift-range check inside VarSizeInt::try_from(&[u8]) can fail, whatever the input bytes: the
+    function is interpreted abstractly (bytes in [0, 255], every path followed separately, rules/absint.py), so the
+    verdict does not depend on how the accumulation is written (running multiplier, shift count, ...)."""
+    import absint
+    b = ctx.body(VARINT_FN)
+    ex = varint_exploration(ctx)
     out = []
-    mult_locals = _scale_locals(b)
-    if not mult_locals or mx is None:
-        raise AnchorLost("the running multiplier (a local multiplied by 128 on every iteration) / VarSizeInt::MAX in VarSizeInt::try_from(&[u8])")
-    for s_ in enumerate_sites(ctx, b):
-        if s_.kind != "assert" or not any(o.get("k") in ("move", "copy") and (b.base_local(o) in mult_locals or any(a[0] == "local" and a[1] in mult_locals for a in b.atoms(o)) or _mentions(b, o, mult_locals)) for o in s_.extra.get("ops", [])):
-            continue
-        guarded = None
-        for (d, e) in dominating_edges(b, s_.bb):
-            c = Cond(b, d)
-            if c.kind != "cmp":
-                continue
-            n = c.cmp_norm(lambda x: x.get("k") != "const" and b.base_local(x) in mult_locals)
-            if not n:
-                continue
-            k = b.fold(n[1])
-            truth = c.holds_on(e)
-            if k is None or truth is None:
-                continue
-            eff = n[0] if truth else {"Lt": "Ge", "Ge": "Lt", "Gt": "Le", "Le": "Gt", "Eq": "Ne", "Ne": "Eq"}[n[0]]
-            if (eff == "Le" and k <= mx) or (eff == "Lt" and k <= mx + 1):
-                guarded = (eff, k, b.site(d))
-        out.append(Inst("VARINT-GUARD", s_.what, guarded is not None, s_.site(),
-                        "%s is %s" % (s_.what, "dominated by `mult %s %d` at %s" % guarded if guarded else "NOT preceded by the bound test on the multiplier: a fifth continuation byte overflows u32"),
-                        "mult <= 0x%x (so mult is one of 1, 2^7, 2^14, 2^21) before it is used" % mx))
+    bad = sorted({(m, n, b.site(bb)) for bb, m, n in ex.failures})
+    out.append(Inst("VARINT-GUARD", "no-arithmetic-failure", not bad and not ex.unbounded and bool(ex.returns), b.site(0),
+                    "%d abstract states explored, %d ways to return; checks that may fail: %s%s" % (ex.steps, len(ex.returns), [("%s after %d byte(s)" % (m, n), s_) for m, n, s_ in bad] or "none",
+                                                                                              "; exploration not bounded: %s" % ex.unbounded[:2] if ex.unbounded else ""),
+                    "no overflow-checked operation can fail and at most 5 bytes are looked at"))
+    for m, n, s_ in bad:
+        out.append(Inst("VARINT-GUARD", "%s@byte%d" % (m, n), False, s_, "%s can fail once %d byte(s) have been consumed (e.g. continuation bytes 0xff)" % (m, n),
+                        "the bound on the running multiplier / shift is tested before it is used"))
     return out
 
 
-@rule("VARINT-ERR", floor=2)
+@rule("VARINT-ERR", floor=1)
 def varint_err(ctx):
-    """VarSizeInt::try_from(&[u8]) reports an error other than InsufficientBufferSize only after four bytes with a
-    continuation bit (multiplier beyond the maximum, or a terminating byte at index >= 4). The framer parses the
-    length over the zero-padded read buffer: an error that a zero byte after a valid prefix could trigger would be
-    mistaken for a malformed stream (premature end-of-stream)."""
-    b = ctx.body(r"core::base_types::VarSizeInt as std::convert::TryFrom<&\[u8\]>>::try_from$")
-    mult_locals = _scale_locals(b)
-    # the index of the current byte: the first component of what Enumerate::next yields
-    idx_locals = set()
-    for l in range(len(b.locals)):
-        if b.locals[l]["ty"] != "usize":
-            continue
-        for d in b.whole_defs(l):
-            if d[0] == "stmt" and d[3]["rv"]["k"] == "use" and d[3]["rv"]["op"].get("k") in ("move", "copy"):
-                pl = d[3]["rv"]["op"]["pl"]
-                fs = [p["f"] for p in pl["p"] if isinstance(p, dict) and "f" in p]
-                if any(isinstance(p, dict) and p.get("dc") == "Some" for p in pl["p"]) and fs and fs[-1] == 0 and \
-                        any(a[0] == "call" and a[1].endswith("::next") for a in b.atoms({"l": pl["l"], "p": []})):
-                    idx_locals.add(l)
+    """VarSizeInt::try_from(&[u8]) reports an error other than InsufficientBufferSize only once five bytes have been
+    looked at (four continuation bytes). The framer parses the length over the zero-padded read buffer: an error that a
+    zero byte after a valid prefix could trigger would be mistaken for a malformed stream (premature end-of-stream)."""
+    import absint
+    b = ctx.body(VARINT_FN)
+    ex = varint_exploration(ctx)
     out = []
-    for i in sorted(b.reach):
-        variants = set()
-        for st in b.blocks[i]["stmts"]:
-            if st["k"] == "assign":
-                variants |= {a[2] for a in b.rv_atoms(st["rv"]) if a[0] == "variant" and a[1].startswith("core::error::")}
-        variants -= {"InsufficientBufferSize"}
-        if not variants:
-            continue
-        ok = False
-        why = []
-        for (d, s_) in b.control_dep_closure(i):
-            c = Cond(b, d)
-            if c.kind == "cmp":
-                n = c.cmp_norm(lambda x: x.get("k") != "const" and b.base_local(x) in mult_locals)
-                if n and c.holds_on(s_) is not None:
-                    k = b.fold(n[1])
-                    eff = n[0] if c.holds_on(s_) else {"Lt": "Ge", "Ge": "Lt", "Gt": "Le", "Le": "Gt"}.get(n[0], n[0])
-                    if k is not None and eff in ("Gt", "Ge") and k >= 2 ** 21:
-                        ok = True
-                        why.append("mult %s %d" % (eff, k))
-            t = b.term(d)
-            if t["k"] == "switch" and t["op"].get("k") != "const" and (t["op"]["pl"]["l"] in idx_locals or b.base_local(t["op"]) in idx_locals):
-                vals = b.edge_value(d, s_)
-                if vals == ["otherwise"] and {v for v, _ in t["targets"]} >= {0, 1, 2, 3}:
-                    ok = True
-                    why.append("idx >= 4")
-        out.append(Inst("VARINT-ERR", "%s#%d" % (",".join(sorted(variants)), len([o for o in out if o.key.split(":", 1)[1].startswith(",".join(sorted(variants)))])), ok, b.site(i),
-                        "error %s is returned %s" % (sorted(variants), "only after four continuation bytes (%s)" % ", ".join(sorted(set(why))) if ok else "on a condition that a zero byte following a valid prefix can satisfy"),
-                        "no error on `valid prefix + zero padding` (only InsufficientBufferSize or a provisional value)"))
+    first = {}
+    for n, v, bb in ex.returns:
+        d = absint.describe(v)
+        if d[:1] == ["Err"]:
+            name = d[1] if len(d) > 1 else "?"
+            if name != "InsufficientBufferSize":
+                if name not in first or n < first[name][0]:
+                    first[name] = (n, bb)
+    for name, (n, bb) in sorted(first.items()):
+        out.append(Inst("VARINT-ERR", name, n >= 5, b.site(bb), "error %s can be returned after %d byte(s)" % (name, n),
+                        "no error on `valid prefix + zero padding`: errors other than InsufficientBufferSize only from the fifth byte on"))
+    errs_short = [n for n, v, bb in ex.returns if absint.describe(v)[:2] == ["Err", "InsufficientBufferSize"]]
+    out.append(Inst("VARINT-ERR", "running-out-of-bytes", set(errs_short) >= {0, 1, 2, 3}, b.site(0),
+                    "InsufficientBufferSize is returned when the input ends after %s byte(s)" % sorted(set(errs_short)), "a length field cut short is reported as such (the framer reads on)"))
     return out
+
+
+@rule("VARINT-OK", floor=4)
+def varint_ok(ctx):
+    """A variable byte integer of k bytes (k = 1..4) decodes to the k-byte state, and nothing else decodes."""
+    import absint
+    b = ctx.body(VARINT_FN)
+    ex = varint_exploration(ctx)
+    want = {1: "SingleByte", 2: "TwoByte", 3: "ThreeByte", 4: "FourByte"}
+    got = {}
+    for n, v, bb in ex.returns:
+        d = absint.describe(v)
+        if d[:1] == ["Ok"]:
+            got.setdefault(n, set()).add(d[-1])
+    out = []
+    for k in sorted(set(want) | set(got)):
+        ok = got.get(k) == {want.get(k)}
+        out.append(Inst("VARINT-OK", "bytes=%d" % k, ok, b.site(0), "after %d byte(s) the decoder can return Ok(%s)" % (k, sorted(got.get(k, [])) or "nothing"), "Ok(%s)" % want.get(k, "nothing")))
+    return out
+
+
